@@ -224,11 +224,16 @@ def cmd_check(prop, tier):
         for pf, parts in dumps:
             with open(pf, "w") as out:
                 for ppath, pr in parts:
-                    if pr.wait() != 0:
+                    rc_dump = pr.wait()
+                    if rc_dump != 0 and not os.path.basename(ppath).startswith("dump.base_"):
                         log("dump failed:", ppath); harness_errors_pre = True
+                    # (the frozen old release may die on one of its own, since repaired, defects while executing a plan: the records it wrote until then are used)
                     if os.path.exists(ppath):
-                        with open(ppath) as f:
-                            out.write(f.read())
+                        with open(ppath, errors="replace") as f:
+                            txt = f.read()
+                        if txt and not txt.endswith("\n"):
+                            txt = txt[:txt.rfind("\n") + 1]      # a writer that died leaves a cut line
+                        out.write(txt)
     for u in units:
         (binary, world, share, qruns, truns) = u[:5]
         nw = max(1, (WORKERS * share) // total_share)
